@@ -920,7 +920,7 @@ class _Cond:
 
 
 @harness('O1t', targets=['kopf._cogs.aiokits.aiotoggles.ToggleSet.is_on', 'kopf._cogs.aiokits.aiotoggles.ToggleSet.make_toggle',
-                         'kopf._cogs.aiokits.aiotoggles.ToggleSet.drop_toggle'], props=['C17'],
+                         'kopf._cogs.aiokits.aiotoggles.ToggleSet.drop_toggle'], props=['C17', 'C09', 'C13', 'C19'],
          clauses=['on_iff_no_member_off', 'made_toggle_blocks', 'dropped_toggle_leaves', 'waiters_notified'],
          canaries=['canary.always_on'],
          trusted=['asyncio.Condition (lock + notify_all) by contract', 'members bounded by 3 (the generator expression in is_on is run natively)'])
